@@ -1746,8 +1746,11 @@ class rx:
             'kwargs': {},
             'reverse': False
         }
-        self._method = None
-        return self._clone(operation)
+        # The attribute access is recorded on a copy: the accessor itself
+        # (e.g. `pi = dfi.A`) stays what it is and can be used again.
+        base = self._clone(copy=True)
+        base._method = None
+        return base._clone(operation)
 
     def __getattribute__(self, name):
         self_dict = super().__getattribute__('__dict__')
